@@ -1,4 +1,4 @@
-import JunoModel.C05.ProofsFilter5
+import JunoModel.C05.ProofsPrune
 /-!
 C05 — property theorems (statements only; proofs are in `Proofs*.lean`).
 
@@ -54,28 +54,66 @@ exactly the complete windows of `c`, each without false negatives (`WinsOK`), th
 snapshot — if any — describes a prefix of `c` (`SnapOK`), and the in-memory filter is lazy or
 describes `c` (`MemOK`).
 
-Full-strength statements the property asks for, and why they carry `_partial`:
+The full-strength statements (`crash_consistent`, `restart_ok`, `next_block_storable`,
+`memory_tracks_disk`, below) are proved for the code as it is now (`Fixes.all`: fix commits
+84d7a3b, 702b167, 3373c0b) by showing that `Good` is an invariant of EVERY history and EVERY fault
+schedule. For the earlier trees they are false — a failed Store / RevertHead commit left the
+memory filter mutated (L4), RevertHead kept a stale snapshot (L3) and the persisted window of a
+window that lost its last block (L15): the proved negations at the end are the witnesses, and
+`crash_consistent_without_reverts_any_variant` is what holds for every variant. -/
 
-    restart_ok            : ∀ histories hs and fault schedules, initFilter on (run hs).disk yields a
-                            filter that describes the disk's chain
-    memory_tracks_disk    : after a call that returned an error, the in-memory filter describes the
-                            disk's chain (equals what a restart would build)
-    next_block_storable   : after any crash or failed call, Store of the next block returns ok
+/-- `crash_consistent`: the code as it is now. For EVERY history over {store of any fresh block,
+RevertHead, set-L1-head, snapshot, graceful restart, kill} from the empty node and EVERY fault
+schedule (failure of any commit, crash after any commit) the node ends good: the image describes
+one well-formed chain, exactly the complete bloom windows are persisted and none has a false
+negative, the persisted snapshot (if any) describes a prefix of the chain, the in-memory filter is
+either dropped or describes the chain. -/
+theorem crash_consistent (W : Nat) (hW : 0 < W) (hs : List (Op × Fault))
+    (hv : ValidHist W Fixes.all Node.init hs) :
+    ∃ c, Good W c (run W Fixes.all Node.init hs) :=
+  good_run_repaired hW rfl rfl rfl hs Node.init [] (good_init W hW) hv
 
-The chain part of `Good` is invariant under every history and fault (`consistent_image`). The
-window / snapshot / memory part is NOT, on the unrepaired code: a failed Store / RevertHead commit
-leaves the memory filter mutated (L4), RevertHead keeps a stale snapshot (L3) and the persisted
-window of a window that lost its last block (L15) — the proved negations below are the witnesses.
-What is proved for ALL good nodes: a restart builds the right filter, and the next block is
-stored. What is missing for the full statements: the proof that `Good` is preserved by every call
-of the REPAIRED code (`Fixes.all`) — the harness checks it on the real code at every crash point
-and failed commit instead. -/
+/-- `restart_ok`: after any such history and fault schedule, a new process initialises its
+running filter successfully and exactly (next = height+1, aligned window, no false negatives). -/
+theorem restart_ok (W : Nat) (hW : 0 < W) (hs : List (Op × Fault))
+    (hv : ValidHist W Fixes.all Node.init hs) :
+    ∃ c f d', Coh c (run W Fixes.all Node.init hs).disk ∧
+      initFilter W (run W Fixes.all Node.init hs).disk = some (f, d') ∧ FiltOK W c f := by
+  obtain ⟨c, hg⟩ := crash_consistent W hW hs hv
+  obtain ⟨f, d', h1, h2⟩ := initFilter_good hW hg.wf hg.coh hg.wins hg.snap
+  exact ⟨c, f, d', hg.coh, h1, h2⟩
+
+/-- `next_block_storable`: after any such history and fault schedule — on the live node after a
+failed call as well as on a restarted one — the block the network offers next is stored. -/
+theorem next_block_storable (W : Nat) (hW : 0 < W) (hs : List (Op × Fault))
+    (hv : ValidHist W Fixes.all Node.init hs) :
+    ∃ c, Coh c (run W Fixes.all Node.init hs).disk ∧
+      ∀ b, NextBlock c (run W Fixes.all Node.init hs).disk b →
+        (exec W Fixes.all (run W Fixes.all Node.init hs) (.store b) .none).2 = .ok := by
+  obtain ⟨c, hg⟩ := crash_consistent W hW hs hv
+  exact ⟨c, hg.coh, fun b hn => store_ok_of_good hW _ hg hn⟩
+
+/-- `memory_tracks_disk`: after every call of any such history, failed or not, the in-memory
+running filter is either dropped (rebuilt from the disk on next use) or describes the chain the
+disk holds — it never disagrees with the disk. -/
+theorem memory_tracks_disk (W : Nat) (hW : 0 < W) (hs : List (Op × Fault))
+    (hv : ValidHist W Fixes.all Node.init hs) :
+    ∃ c, Coh c (run W Fixes.all Node.init hs).disk ∧ MemOK W c (run W Fixes.all Node.init hs).mem := by
+  obtain ⟨c, hg⟩ := crash_consistent W hW hs hv
+  exact ⟨c, hg.coh, hg.mem⟩
+
+/-- One RevertHead of the repaired code from a good node, any fault. -/
+theorem revert_keeps_good (W : Nat) (hW : 0 < W) (c : List Block) (n : Node) (hg : Good W c n)
+    (ft : Fault) : ∃ c', Good W c' (exec W Fixes.all n .revert ft).1 :=
+  revert_good hW rfl rfl rfl hg ft
+
+
 
 /-- `restart_ok` for good disks: InitializeRunningEventFilter succeeds and yields a filter that
 expects block `height+1`, has the aligned window of that block, and has no false negative for any
 block of the chain in it — whichever path it takes (snapshot as is, snapshot + fill, rebuild from
 the last persisted window). -/
-theorem restart_ok_partial (W : Nat) (hW : 0 < W) (c : List Block) (d : Disk)
+theorem restart_ok_of_good (W : Nat) (hW : 0 < W) (c : List Block) (d : Disk)
     (hwf : WfChain c) (hc : Coh c d) (hw : WinsOK W c d) (hs : SnapOK W c d) :
     ∃ f d', initFilter W d = some (f, d') ∧ FiltOK W c f :=
   initFilter_good hW hwf hc hw hs
@@ -83,7 +121,7 @@ theorem restart_ok_partial (W : Nat) (hW : 0 < W) (c : List Block) (d : Disk)
 /-- `next_block_storable` for good nodes (in particular right after a restart or crash, memory
 lazy): Store of the block the network offers next returns ok, the height becomes its number and
 its header is readable. -/
-theorem next_block_storable_partial (W : Nat) (hW : 0 < W) (fx : Fixes) (c : List Block) (n : Node)
+theorem next_block_storable_of_good (W : Nat) (hW : 0 < W) (fx : Fixes) (c : List Block) (n : Node)
     (b : Block) (hg : Good W c n) (hn : NextBlock c n.disk b) :
     (exec W fx n (.store b) .none).2 = .ok ∧
       getHeight (exec W fx n (.store b) .none).1.disk = some b.num ∧
@@ -105,21 +143,21 @@ theorem memory_tracks_store (W : Nat) (hW : 0 < W) (c : List Block) (f : Filt) (
 
 /-- A Store from a good node — the block the network offers next — completed, or cut short by a
 crash right after its commit: the node is good again, for the extended chain (so a restart builds
-the right filter and the block after it can be stored: `restart_ok_partial`,
-`next_block_storable_partial`). Every repair variant. -/
+the right filter and the block after it can be stored: `restart_ok_of_good`,
+`next_block_storable_of_good`). Every repair variant. -/
 theorem store_keeps_good (W : Nat) (hW : 0 < W) (fx : Fixes) (c : List Block) (n : Node) (b : Block)
     (hg : Good W c n) (hn : NextBlock c n.disk b) (ft : Fault) (hft : ∀ k, ft ≠ .failAt k) :
     Good W (c ++ [b]) (exec W fx n (.store b) ft).1 :=
   store_good hW fx hg hn ft hft
 
-/-- `crash_consistent_without_reverts_partial`: every history over {store (any fresh block, also
+/-- `crash_consistent_without_reverts_any_variant` (also true of the unrepaired trees): every history over {store (any fresh block, also
 ones the node must refuse), set-L1-head, snapshot, graceful restart, kill} from the empty node,
 with a crash after ANY commit and a failure of ANY snapshot / L1-head write, ends in a good node:
 coherent image, exactly the complete windows persisted and sound, snapshot (if any) describing a
 prefix of the chain, memory filter lazy or exact. Hence after such a history a restart yields the
 right filter and the next block is stored. Partial: no RevertHead / prune in the history and no
 failed Store commit (those are where the unrepaired code breaks — witnesses below). -/
-theorem crash_consistent_without_reverts_partial (W : Nat) (hW : 0 < W) (fx : Fixes)
+theorem crash_consistent_without_reverts_any_variant (W : Nat) (hW : 0 < W) (fx : Fixes)
     (hs : List (Op × Fault)) (hv : ValidHist W fx Node.init hs) (hnr : NoRevert hs)
     (hnf : NoFailedChainCommit hs) :
     ∃ c, Good W c (run W fx Node.init hs) :=
@@ -132,6 +170,36 @@ example (W : Nat) (hW : 0 < W) : Good W [] Node.init := by
   · intro lo w h; simp [getWin, Node.init, Disk.empty] at h
   · simp [SnapOK, Node.init, Disk.empty]
   · simp [MemOK, Node.init]
+
+/-! ## Pruning: several batches, each atomic, every image in between well-defined
+
+`PCoh lag c F d` (ProofsPrune): the image describes chain `c` pruned below `F` — blocks at or above
+`F` fully present (header, transactions, state update, commitments, hash→number, transaction
+lookups), blocks below `F` fully absent, except the pruner's two carve-outs (hash→number of block
+`F-1`; headers of the last `lag` blocks below `F`). `PCoh lag c 0 d` is `Coh c d`. -/
+
+/-- `prune_atomic_batches`: `PruneUpto(e)` (sweep of 55da2ac: every batch carries the range delete
+for the blocks it covers) on a node pruned below `F0`, with ANY batch-size threshold, cut after
+ANY number `k` of batches: the image is pruned below some `F`, `F0 ≤ F ≤ e` — never a block that
+is "retained" but has lost its hash-keyed indexes — and after the last batch `F = e`. -/
+theorem prune_atomic_batches (W thr : Nat) (c : List Block) (hwf : WfChain c) (n : Node) (F0 e : Nat)
+    (hp : PCoh blockHashLag c F0 n.disk) (hF0 : F0 < e) (he : e ≤ c.length) (k : Nat) :
+    ∃ F, F0 ≤ F ∧ F ≤ e ∧
+      PCoh blockHashLag c F (applyCommits n.disk ((prunePlanThr W n e thr).commits.take k)) ∧
+      ((prunePlanThr W n e thr).commits.length ≤ k → F = e) := by
+  obtain ⟨_, F, h1, h2, h3, h4, _⟩ := prune_images (W := W) (thr := thr) hwf hp hF0 he k
+  exact ⟨F, h1, h2, h3, h4⟩
+
+/-- … and as a call under any fault (failure of any batch commit, crash after any batch). -/
+theorem prune_crash_consistent (W : Nat) (fx : Fixes) (c : List Block) (hwf : WfChain c) (n : Node)
+    (F0 e : Nat) (hp : PCoh blockHashLag c F0 n.disk) (hF0 : F0 < e) (he : e ≤ c.length) (ft : Fault) :
+    ∃ F, F0 ≤ F ∧ F ≤ e ∧ PCoh blockHashLag c F (exec W fx n (.prune e) ft).1.disk ∧
+      (ft = .none → F = e ∧ (exec W fx n (.prune e) ft).2 = .ok) :=
+  prune_exec_images fx hwf hp hF0 he ft
+
+/-- The first prune of a node that has never pruned starts from a coherent image. -/
+theorem coherent_is_unpruned (c : List Block) (d : Disk) (h : Coh c d) : PCoh blockHashLag c 0 d :=
+  pcoh_zero_of_coh h
 
 /-! ## Witnesses: where the unrepaired code breaks the property (window size 2 or 4 so that the
 kernel can run them; the harness replays the same histories on the real code with 8192) -/
